@@ -905,6 +905,14 @@ def run(chk):
                                       lambda b: b.crate == "emit_otlp" and "generated" not in b.file and "::tests::" not in b.key, ("Proto", "Json"), 8)
     tag_overrides_rule(chk, P, "C13.R4:tag-overrides")
     points_declined_rule(chk, P, "C13.R8:declined-only-when-empty")
+    # the encoders' own error discipline: every step of a hand-written sval::Value / sval::Stream / Display impl of the OTLP data code and of the
+    # file writer hands its outcome on (`?`, returned, matched) - a dropped `Err` leaves a frame half-written while the rest goes on
+    common.results_inspected_rule(
+        chk, P, "C13.R5:results-inspected", "no streaming or formatting step in the OTLP data code or the file writer has its Result discarded (the terminal writer ignores I/O errors by design)",
+        lambda b: ((b.crate == "emit_otlp" and "/data" in b.file and "generated" not in b.file)
+                   or (b.crate == "emit_file" and re.search(r"default_writer|write_event|EventWriter|FileBuf", b.key) is not None)) and "::tests::" not in b.key,
+        {(r"emit_otlp::data::stream_attributes$", "for_each"): "KNOWN FINDING D20 (C13.R5.errors): the enumeration's outcome is dropped",
+         }, 150)
     return chk
 
 
